@@ -43,6 +43,12 @@ CLAIMED = {
         "Trusts spec/pdf_operators.json. Known findings C16-R6 (current colour spaces not part of the q/Q snapshot) are recorded.",
         "DESIGN.md §5 C16",
     ),
+    "C10": (
+        "who-may-call inventory of decryption sites with branch placement, CFG ordering checks, must-pass-through of PKCS#7 removal, table check of algorithm constants / round counts / slice lengths / update order / registry against ISO 32000 7.6, canonical comparison of the unsigned conversion",
+        "Decides structural necessary conditions of decryption: it is applied at exactly the reviewed sites (direct objects only, streams once before filters, xref data before any handler exists), AES object data is unpadded while key unwrapping is not, the algorithm constants and orders are the standard's, a failed authentication can only end in PDFPasswordIncorrect, and /P 0 converts to 0. That the derived keys decrypt real files (cryptographic equality) and that every wrong password is rejected are not decided.",
+        "Trusts spec/std_security.json (transcribed from ISO 32000-1 7.6 and ISO 32000-2 7.6.4.3) and the cryptography package.",
+        "DESIGN.md §5 C10",
+    ),
     "C11": (
         "backward provenance (taint) analysis from every interpolation in XMLConverter writes, with escaper/numeric-format cleansing and a reviewed safe-expression table; sibling agreement of codec use; class-hierarchy-aware dispatch-order check; tag-balance check of literal output per branch; structural order checks on TextConverter",
         "Decides structural necessary conditions: no document-controlled value reaches the XML output unescaped, every converter encodes with its codec on a binary sink, isinstance dispatch does not shadow subclasses and covers every item class, literal XML written per branch is balanced, the text converter renders children in order with one newline per text box and one form feed per page. It does not decide that the output characters equal the tree's text for every document, nor XML-1.0-forbidden control characters when stripcontrol is off.",
